@@ -429,6 +429,7 @@ def r5_to_ron(ctx):
 
 
 def run(ctx):
+    ctx.guard("C15.R7", "the logger reaches its LogConfig through State::holding: T is put back into the scope it came from", lambda: __import__("c02").r4_holding(ctx, "C15.R7"))
     ctx.guard("C15.R1", "logger", lambda: r1_logger(ctx))
     ctx.guard("C15.R3", "compressed export", lambda: r3_compressed(ctx))
     ctx.guard("C15.R4", "serialisation coverage", lambda: r4_serialization_coverage(ctx))
